@@ -160,13 +160,37 @@ type raceEng struct {
 	// parentOf maps a free variable of a closure to the bound value in the
 	// function that made the closure.
 	bind map[*ssa.FreeVar]ssa.Value
+	// paramBind maps a parameter of a function that runs as (part of) a goroutine of
+	// the analysed function — the callee of `go f(args)`, or a static callee that is
+	// handed the address of a shared variable — to the argument bound to it.
+	paramBind map[*ssa.Parameter]ssa.Value
+	visiting  map[*ssa.Parameter]bool
+}
+
+// raceStaticBody: the function a call instruction statically calls, when its body
+// is available and it belongs to the package of fn (methods called from a go
+// statement / goroutine closure run in that goroutine).
+func raceStaticBody(ci ssa.CallInstruction, fn *ssa.Function) *ssa.Function {
+	cc := ci.Common()
+	if cc.IsInvoke() {
+		return nil
+	}
+	if _, isMC := cc.Value.(*ssa.MakeClosure); isMC {
+		return nil
+	}
+	g := cc.StaticCallee()
+	if g == nil || len(g.Blocks) == 0 || g.Pkg == nil || g.Pkg != fn.Pkg {
+		return nil
+	}
+	return g
 }
 
 // raceAnalyze runs E-RACE on one function (closures spawned as goroutines by fn;
 // goroutines spawned by nested closures are analysed when raceAnalyze is called
 // on those closures).
 func raceAnalyze(fn *ssa.Function) *raceResult {
-	e := &raceEng{fn: fn, res: &raceResult{Fn: fn, Waits: map[ssa.Value][]ssa.Instruction{}}, bind: map[*ssa.FreeVar]ssa.Value{}}
+	e := &raceEng{fn: fn, res: &raceResult{Fn: fn, Waits: map[ssa.Value][]ssa.Instruction{}}, bind: map[*ssa.FreeVar]ssa.Value{},
+		paramBind: map[*ssa.Parameter]ssa.Value{}, visiting: map[*ssa.Parameter]bool{}}
 	e.indexBindings(fn)
 	res := e.res
 	// threads + Wait/Add sites
@@ -184,6 +208,14 @@ func raceAnalyze(fn *ssa.Function) *raceResult {
 				if mc, ok := x.Call.Value.(*ssa.MakeClosure); ok {
 					th.MC = mc
 					th.Fn = mc.Fn.(*ssa.Function)
+				} else if g := raceStaticBody(x, fn); g != nil {
+					// `go a.method(args)`: the method body is the goroutine
+					th.Fn = g
+					for k, a := range x.Call.Args {
+						if k < len(g.Params) {
+							e.paramBind[g.Params[k]] = a
+						}
+					}
 				}
 				res.Threads = append(res.Threads, th)
 			case ssa.CallInstruction:
@@ -416,6 +448,26 @@ func (e *raceEng) indexBindings(f *ssa.Function) {
 // toParentRoot maps a value in a (nested) closure to the root it denotes in the
 // analysed function.
 func (e *raceEng) toParentRoot(v ssa.Value) ssa.Value {
+	// a pointer parameter of a function running in the goroutine stands for the argument
+	for i := 0; i < 4; i++ {
+		x := v
+		for {
+			if u, ok := x.(*ssa.UnOp); ok && u.Op == token.MUL {
+				x = u.X
+				continue
+			}
+			break
+		}
+		pa, ok := x.(*ssa.Parameter)
+		if !ok {
+			break
+		}
+		b, ok := e.paramBind[pa]
+		if !ok {
+			return nil
+		}
+		v = b
+	}
 	r := raceRootOf(v)
 	for r != nil {
 		fv, ok := r.(*ssa.FreeVar)
@@ -685,13 +737,81 @@ func (e *raceEng) walk(v *raceVar, thread int, f *ssa.Function, addr ssa.Value, 
 				e.walkClosure(v, thread, f, r, cf.FreeVars[k], path, cx)
 			}
 		case ssa.CallInstruction:
-			e.emit(v, thread, path, raceEscape, r, cx)
+			if !e.walkCallee(v, thread, f, r, addr, path, cx) {
+				e.emit(v, thread, path, raceEscape, r, cx)
+			}
 		default:
 			if in, ok := ref.(ssa.Instruction); ok {
 				e.emit(v, thread, path, raceEscape, in, cx)
 			}
 		}
 	}
+}
+
+// walkCallee: addr is passed as an argument of call instruction r (in f) to a
+// function of the same package whose body is available.  The callee's accesses
+// through the parameter are the accesses of whoever runs the callee: the calling
+// thread for a plain call, the thread's deferred phase for a defer, a new
+// goroutine for a go statement.  Returns false if the call cannot be followed.
+func (e *raceEng) walkCallee(v *raceVar, thread int, f *ssa.Function, r ssa.CallInstruction, addr ssa.Value, path []string, cx raceCtx) bool {
+	g := raceStaticBody(r, e.fn)
+	if g == nil || r.Common().Value == addr {
+		return false
+	}
+	followed := false
+	for k, a := range r.Common().Args {
+		if a != addr {
+			continue
+		}
+		if k >= len(g.Params) || e.visiting[g.Params[k]] {
+			return false
+		}
+		pa := g.Params[k]
+		if _, bound := e.paramBind[pa]; !bound {
+			e.paramBind[pa] = addr
+		}
+		ncx := cx
+		nthread := thread
+		switch r.(type) {
+		case *ssa.Go:
+			top := f == e.fn && thread == -1
+			placed := false
+			if top {
+				for _, th := range e.res.Threads {
+					if th.Spawn == ssa.Instruction(r) && th.Fn == g {
+						nthread, ncx, placed = th.Idx, raceCtx{}, true
+					}
+				}
+			}
+			if !placed {
+				ncx.nested = true
+				if thread == -1 {
+					ncx.anytime = true
+				}
+				if ncx.at == nil {
+					ncx.at = []ssa.Instruction{r}
+				}
+			}
+		case *ssa.Defer:
+			if ncx.at == nil {
+				if f == e.fn || (thread >= 0 && f == e.res.Threads[thread].Fn) {
+					ncx.at = raceRunDefersOf(f)
+					ncx.deferredBy = r
+				} else {
+					ncx.at = []ssa.Instruction{r}
+				}
+			}
+		default:
+			if ncx.at == nil {
+				ncx.at = []ssa.Instruction{r}
+			}
+		}
+		e.visiting[pa] = true
+		e.walk(v, nthread, g, pa, path, ncx)
+		delete(e.visiting, pa)
+		followed = true
+	}
+	return followed
 }
 
 func (e *raceEng) walkMap(v *raceVar, thread int, m ssa.Value, path []string, cx raceCtx) {
